@@ -119,6 +119,11 @@ def run_config(pid, hname, cfg, tier, seed, opts):
             nm = f'exception:{type(val).__name__}'
             if r == 'sat':
                 W._record(nm, 'sat', W.model_inputs(m))
+                # the solver's model is often the all-zero corner; generic points of the same path are replayed as well
+                for _ in range(2):
+                    sm = W.sample(tries=6, solver_fallback=False)
+                    if sm is not None:
+                        W.obs.append((nm, 'sat', sm[0]))
             elif r == 'unknown':
                 W._record(nm, 'unknown')
             W.notes['exception'] = ''.join(traceback.format_exception_only(type(val), val)).strip()[:300]
@@ -197,9 +202,10 @@ def run_config(pid, hname, cfg, tier, seed, opts):
     # replay candidates on the real code
     confirmed = []
     seen = set()
+    pending = {}
     for cand in res['candidates']:
         key = (ob_class(cand['ob']),)
-        if key in seen and len(confirmed) >= 1:
+        if key in seen:
             continue
         CW, exc = run_concrete(hrun, cfg, cand['values'], seed)
         fails = [(n, d) for n, st, d in CW.obs if st in ('fail', 'fail-concrete-only')]
@@ -207,10 +213,12 @@ def run_config(pid, hname, cfg, tier, seed, opts):
             fails.append((f'exception:{type(exc).__name__}', {'exception': repr(exc)[:300]}))
         if fails:
             seen.add(key)
+            pending.pop(key, None)
             confirmed.append({'ob': cand['ob'], 'values': cand['values'], 'replay_failures': [{'ob': n, 'detail': d} for n, d in fails[:6]]})
         else:
-            res['inconclusive'].append({'why': 'non-reproducing', 'ob': cand['ob'], 'values': cand['values'],
-                                        'exc': repr(exc) if exc is not None else None})
+            pending.setdefault(key, {'why': 'non-reproducing', 'ob': cand['ob'], 'values': cand['values'],
+                                     'exc': repr(exc) if exc is not None else None})
+    res['inconclusive'].extend(pending.values())
     res['confirmed'] = confirmed
     res['candidates'] = len(res['candidates'])
     res['functions'] = sorted(funcs)
